@@ -1,6 +1,10 @@
 (* C19 - proofs about the parser / printer model (Model/Uri.v). *)
 From Coq Require Import Permutation.
-Require Import V.Base.MachineInt V.Model.UriTypes V.Generated.GenUriTables V.Model.UriSpec V.Model.Uri.
+Require Import V.Base.MachineInt.
+Require Import V.Model.UriTypes.
+Require Import V.Generated.GenUriTables.
+Require Import V.Model.UriSpec.
+Require Import V.Model.Uri.
 From Coq Require Import Ascii DecimalString.
 Open Scope Z_scope.
 
